@@ -1390,8 +1390,15 @@ class Interp:
                 # macro-generated or `impl Trait` params: take generic-looking names from the MIR signature, in order
                 names = list(names or [])
                 sig = ' '.join(t for _, t in f.args) + ' ' + f.ret
+                if getattr(self, '_fn_impl_gens', None) is None:
+                    self._fn_impl_gens = {}
+                    for info in self.p.impls:
+                        for ms in info.methods.values():
+                            for mn in ms:
+                                self._fn_impl_gens[mn] = set(info.gens)
+                impl_gens = self._fn_impl_gens.get(fname, ())     # generics of the impl stay the impl's, bound or not (defaulted ones may be unbound)
                 for g in generic_names(sig):
-                    if g not in names and g not in b:
+                    if g not in names and g not in b and g not in impl_gens:
                         names.append(g)
             for g, a in zip(names, gargs):
                 b[g] = a
